@@ -337,4 +337,414 @@ theorem spliceLine_occ (v : VInfo) (L : List PMatch) (line : Str)
       rw [hf]
       exact take_drop_append _ _ _ _ _ (ih _ hs.2 hb' hm') rfl
 
+/-! ### `iterMatches` -/
+
+/-- span `s` neither overlaps nor touches match `m` -/
+def NoOv (s : LineSpan) (m : PMatch) : Prop :=
+  s.lineno ≠ m.lineno ∨ s.stop < m.start ∨ m.stop < s.start
+
+/-- two matches neither overlap nor touch -/
+def Disj (a b : PMatch) : Prop := a.lineno ≠ b.lineno ∨ a.stop < b.start ∨ b.stop < a.start
+
+theorem Disj.symm {a b : PMatch} (h : Disj a b) : Disj b a := by unfold Disj at *; omega
+
+theorem hasOverlap_false_iff (m : PMatch) (seen : List LineSpan) :
+    hasOverlap m.span seen = false ↔ ∀ s ∈ seen, NoOv s m := by
+  unfold hasOverlap
+  rw [List.any_eq_false]
+  constructor
+  · intro h s hs
+    have := h s hs
+    simp [PMatch.span] at this
+    unfold NoOv
+    by_cases h1 : s.lineno = m.lineno
+    · by_cases h2 : m.start ≤ s.stop
+      · have := this h1 (decide_eq_true h2); omega
+      · omega
+    · exact .inl h1
+  · intro h s hs
+    have := h s hs
+    simp [PMatch.span]
+    intro h1 h2
+    have h2' := of_decide_eq_true h2
+    unfold NoOv at this; omega
+
+/-- the matches of one pattern that survive the `seen` filter -/
+def keptOf : List LineSpan → List PMatch → List PMatch
+  | _, [] => []
+  | seen, m :: l => (if hasOverlap m.span seen then [] else [m]) ++ keptOf (seen ++ [m.span]) l
+
+theorem foldl_kept (l : List PMatch) (k : List PMatch) (seen : List LineSpan) :
+    l.foldl (fun (acc : List PMatch × List LineSpan) m =>
+        (if hasOverlap m.span acc.2 then acc.1 else acc.1 ++ [m], acc.2 ++ [m.span])) (k, seen)
+      = (k ++ keptOf seen l, seen ++ l.map PMatch.span) := by
+  induction l generalizing k seen with
+  | nil => simp [keptOf]
+  | cons m l ih =>
+    simp only [List.foldl_cons, ih, keptOf]
+    split <;> simp
+
+/-- one unfolding step of `iterMatchesGo`, with the recursive call abstracted (the equation
+    lemmas of `iterMatchesGo` cannot be generated: `whnf` runs into `compileRe`) -/
+def iterBody (lines : List Str) (p : CPat) (seen : List LineSpan)
+    (rec : List LineSpan → Option (List PMatch)) (o : Option Re) : Option (List PMatch) :=
+  match o with
+  | none => none
+  | some r =>
+    let ms := iterForPatternGo r p 0 lines
+    let ks := ms.foldl (fun (acc : List PMatch × List LineSpan) m =>
+      (if hasOverlap m.span acc.2 then acc.1 else acc.1 ++ [m], acc.2 ++ [m.span])) ([], seen)
+    (rec ks.2).map (ks.1 ++ ·)
+
+theorem iterMatchesGo_nil (lines : List Str) (seen : List LineSpan) :
+    iterMatchesGo lines [] seen = some [] := rfl
+
+attribute [local irreducible] compileRe in
+theorem iterMatchesGo_cons_body (lines : List Str) (p : CPat) (ps : List CPat)
+    (seen : List LineSpan) :
+    iterMatchesGo lines (p :: ps) seen =
+      iterBody lines p seen (iterMatchesGo lines ps) (compileRe p.raw) := rfl
+
+theorem iterMatchesGo_cons (lines : List Str) (p : CPat) (ps : List CPat) (seen : List LineSpan) :
+    iterMatchesGo lines (p :: ps) seen =
+      match compileRe p.raw with
+      | none => none
+      | some r =>
+        (iterMatchesGo lines ps (seen ++ (iterForPatternGo r p 0 lines).map PMatch.span)).map
+          (keptOf seen (iterForPatternGo r p 0 lines) ++ ·) := by
+  rw [iterMatchesGo_cons_body]
+  generalize compileRe p.raw = o
+  cases o with
+  | none => rfl
+  | some r => simp only [iterBody, foldl_kept, List.nil_append]
+
+theorem mem_keptOf {seen : List LineSpan} {l : List PMatch} {m : PMatch} (h : m ∈ keptOf seen l) :
+    m ∈ l ∧ ∀ s ∈ seen, NoOv s m := by
+  induction l generalizing seen with
+  | nil => cases h
+  | cons x l ih =>
+    simp only [keptOf, List.mem_append] at h
+    rcases h with h | h
+    · split at h
+      · cases h
+      · rename_i hov
+        simp only [List.mem_singleton] at h
+        subst h
+        exact ⟨List.mem_cons_self, (hasOverlap_false_iff _ _).1 (by simpa using hov)⟩
+    · obtain ⟨h1, h2⟩ := ih h
+      exact ⟨List.mem_cons_of_mem _ h1, fun s hs => h2 s (List.mem_append_left _ hs)⟩
+
+theorem keptOf_pairwise (seen : List LineSpan) (l : List PMatch) : (keptOf seen l).Pairwise Disj := by
+  induction l generalizing seen with
+  | nil => simp [keptOf]
+  | cons x l ih =>
+    simp only [keptOf]
+    rw [List.pairwise_append]
+    refine ⟨by split <;> simp, ih _, fun a ha b hb => ?_⟩
+    split at ha
+    · cases ha
+    · simp only [List.mem_singleton] at ha
+      subst ha
+      have := (mem_keptOf hb).2 a.span (by simp)
+      simpa [NoOv, Disj, PMatch.span] using this
+
+theorem iterMatchesGo_inv (lines : List Str) (pats : List CPat) (seen : List LineSpan)
+    (ms : List PMatch) (h : iterMatchesGo lines pats seen = some ms) :
+    ms.Pairwise Disj ∧ ∀ m ∈ ms, (∀ s ∈ seen, NoOv s m) ∧
+      ∃ p ∈ pats, ∃ r, compileRe p.raw = some r ∧ m ∈ iterForPatternGo r p 0 lines := by
+  induction pats generalizing seen ms with
+  | nil =>
+    simp only [iterMatchesGo_nil, Option.some.injEq] at h
+    subst h
+    simp
+  | cons p ps ih =>
+    rw [iterMatchesGo_cons] at h
+    split at h
+    · cases h
+    · rename_i r hr
+      obtain ⟨rest, hrest, rfl⟩ := Option.map_eq_some_iff.1 h
+      obtain ⟨ih1, ih2⟩ := ih _ _ hrest
+      refine ⟨?_, ?_⟩
+      · rw [List.pairwise_append]
+        refine ⟨keptOf_pairwise _ _, ih1, fun a ha b hb => ?_⟩
+        have hal := (mem_keptOf ha).1
+        have := (ih2 b hb).1 a.span
+          (List.mem_append_right _ (List.mem_map.2 ⟨a, hal, rfl⟩))
+        simpa [NoOv, Disj, PMatch.span] using this
+      · intro m hm
+        rcases List.mem_append.1 hm with hm | hm
+        · exact ⟨(mem_keptOf hm).2, p, List.mem_cons_self, r, hr, (mem_keptOf hm).1⟩
+        · obtain ⟨h1, p', hp', r', hr', hm'⟩ := ih2 m hm
+          exact ⟨fun s hs => h1 s (List.mem_append_left _ hs), p', List.mem_cons_of_mem _ hp',
+            r', hr', hm'⟩
+
+theorem searchGo_bounds (r : Re) (idx : Nat) (s : Str) (mm : Match)
+    (h : searchGo r idx s = some mm) :
+    idx ≤ mm.start ∧ mm.start ≤ mm.stop ∧ mm.stop ≤ idx + s.length := by
+  induction s generalizing idx with
+  | nil =>
+    unfold searchGo at h
+    split at h
+    · cases h; simp
+    · cases h
+  | cons c cs ih =>
+    unfold searchGo at h
+    split at h
+    · cases h
+      simp only [List.length_cons]
+      omega
+    · have := ih _ h
+      simp only [List.length_cons]
+      omega
+
+theorem mem_iterForPatternGo {r : Re} {p : CPat} {n : Nat} {lines : List Str} {m : PMatch}
+    (h : m ∈ iterForPatternGo r p n lines) :
+    m.pat = p ∧ n ≤ m.lineno ∧ m.start < m.stop ∧
+      ∃ line, lines[m.lineno - n]? = some line ∧ m.stop ≤ line.length := by
+  induction lines generalizing n with
+  | nil => cases h
+  | cons line rest ih =>
+    have hrec : m ∈ iterForPatternGo r p (n + 1) rest →
+        m.pat = p ∧ n ≤ m.lineno ∧ m.start < m.stop ∧
+          ∃ l, (line :: rest)[m.lineno - n]? = some l ∧ m.stop ≤ l.length := by
+      intro h'
+      obtain ⟨h1, h2, h3, l, h4, h5⟩ := ih h'
+      refine ⟨h1, by omega, h3, l, ?_, h5⟩
+      have : m.lineno - n = (m.lineno - (n + 1)) + 1 := by omega
+      rw [this, List.getElem?_cons_succ]
+      exact h4
+    unfold iterForPatternGo at h
+    split at h
+    · rename_i mm hmm
+      split at h
+      · rename_i hlt
+        rcases List.mem_cons.1 h with rfl | h
+        · have := searchGo_bounds r 0 line mm hmm
+          refine ⟨rfl, Nat.le_refl _, hlt, line, by simp, ?_⟩
+          simp only
+          omega
+        · exact hrec h
+      · exact hrec h
+    · exact hrec h
+
+theorem iterMatches_facts (lines : List Str) (pats : List CPat) (ms : List PMatch)
+    (h : iterMatches lines pats = some ms) :
+    ms.Pairwise Disj ∧ ∀ m ∈ ms, m.pat ∈ pats ∧ m.start < m.stop ∧
+      ∃ line, lines[m.lineno]? = some line ∧ m.stop ≤ line.length := by
+  obtain ⟨h1, h2⟩ := iterMatchesGo_inv lines pats [] ms h
+  refine ⟨h1, fun m hm => ?_⟩
+  obtain ⟨-, p, hp, r, -, hmem⟩ := h2 m hm
+  obtain ⟨e1, -, e3, line, e4, e5⟩ := mem_iterForPatternGo hmem
+  exact ⟨e1 ▸ hp, e3, line, by simpa using e4, e5⟩
+
+/-! ### `rewriteLines` -/
+
+theorem rewriteLines_ok {pats : List CPat} {v : VInfo} {old new : List Str}
+    (h : rewriteLines pats v old = .ok new) :
+    ∃ ms, iterMatches old pats = some ms ∧ applyMatches v (sortMatches ms) old = .ok new ∧
+      pats.all (fun p => ms.any (fun m => m.pat == p)) = true := by
+  unfold rewriteLines at h
+  split at h
+  · cases h
+  · rename_i ms hms
+    split at h
+    · cases h
+    · rename_i nl hnl
+      split at h
+      · rename_i hall
+        cases h
+        exact ⟨ms, hms, hnl, hall⟩
+      · cases h
+
+/-- the matches of line `i`, in the order `applyMatches` processes them -/
+def lineMatches (ms : List PMatch) (i : Nat) : List PMatch :=
+  (sortMatches ms).filter (fun m => m.lineno == i)
+
+theorem mem_lineMatches {ms : List PMatch} {i : Nat} {m : PMatch} :
+    m ∈ lineMatches ms i ↔ m ∈ ms ∧ m.lineno = i := by
+  simp [lineMatches, (sortMatches_perm ms).mem_iff]
+
+theorem rewriteLines_line {pats : List CPat} {v : VInfo} {old new : List Str} {ms : List PMatch}
+    (hm : iterMatches old pats = some ms) (h : rewriteLines pats v old = .ok new) :
+    (∀ m ∈ ms, formatVersion v (normalizePattern m.pat.vp m.pat.raw) = .ok (replOfL v m)) ∧
+    new.length = old.length ∧
+    ∀ i, new[i]? = (old[i]?).map (spliceLine v (lineMatches ms i)) := by
+  obtain ⟨ms', hms', happ, -⟩ := rewriteLines_ok h
+  rw [hm] at hms'
+  cases hms'
+  obtain ⟨h1, h2, h3⟩ := applyMatches_ok v _ _ _ happ
+  exact ⟨fun m hm' => h1 m ((sortMatches_perm ms).mem_iff.2 hm'), h2, h3⟩
+
+theorem lineMatches_sorted {lines : List Str} {pats : List CPat} {ms : List PMatch}
+    (hm : iterMatches lines pats = some ms) (i : Nat) :
+    (lineMatches ms i).Pairwise (fun a b => b.stop < a.start) := by
+  obtain ⟨hd, hf⟩ := iterMatches_facts lines pats ms hm
+  have hd' : (sortMatches ms).Pairwise Disj :=
+    (sortMatches_perm ms).symm.pairwise hd (fun h => h.symm)
+  have hboth : (sortMatches ms).Pairwise (fun a b => mle a b ∧ Disj a b) :=
+    List.pairwise_and_iff.2 ⟨sortMatches_sorted ms, hd'⟩
+  have := hboth.filter (fun m => m.lineno == i)
+  refine List.Pairwise.imp_of_mem ?_ this
+  intro a b ha hb ⟨h1, h2⟩
+  have ha' := mem_lineMatches.1 ha
+  have hb' := mem_lineMatches.1 hb
+  have := (hf a ha'.1).2.1
+  have := (hf b hb'.1).2.1
+  unfold mle at h1; unfold Disj at h2
+  omega
+
+theorem lineMatches_bounds {lines : List Str} {pats : List CPat} {ms : List PMatch}
+    (hm : iterMatches lines pats = some ms) (i : Nat) (line : Str) (hl : lines[i]? = some line) :
+    ∀ m ∈ lineMatches ms i, m.start ≤ m.stop ∧ m.stop ≤ line.length := by
+  intro m hmem
+  obtain ⟨h1, h2⟩ := mem_lineMatches.1 hmem
+  obtain ⟨-, h3, l, h4, h5⟩ := (iterMatches_facts lines pats ms hm).2 m h1
+  rw [h2, hl] at h4
+  cases h4
+  omega
+
+theorem sum_map_perm {α} (f : α → Int) {l1 l2 : List α} (h : l1.Perm l2) :
+    (l1.map f).sum = (l2.map f).sum := by
+  induction h with
+  | nil => rfl
+  | cons x _ ih => simp [ih]
+  | swap x y l => simp only [List.map_cons, List.sum_cons]; omega
+  | trans _ _ ih1 ih2 => exact ih1.trans ih2
+
+/-! ### one line with one or several matches, in terms of the original match list -/
+
+theorem lineMatches_single {lines : List Str} {pats : List CPat} {ms : List PMatch}
+    (hm : iterMatches lines pats = some ms) (m : PMatch) (hmem : m ∈ ms)
+    (honly : ∀ m' ∈ ms, m'.lineno = m.lineno → m' = m) : lineMatches ms m.lineno = [m] := by
+  have hs := lineMatches_sorted hm m.lineno
+  have hin : m ∈ lineMatches ms m.lineno := mem_lineMatches.2 ⟨hmem, rfl⟩
+  have hall : ∀ x ∈ lineMatches ms m.lineno, x = m := fun x hx =>
+    honly x (mem_lineMatches.1 hx).1 (mem_lineMatches.1 hx).2
+  have hlt := ((iterMatches_facts lines pats ms hm).2 m hmem).2.1
+  generalize lineMatches ms m.lineno = L at *
+  match L, hs, hin, hall with
+  | [], _, hin, _ => cases hin
+  | [a], _, _, hall => rw [hall a List.mem_cons_self]
+  | a :: b :: rest, hs, _, hall =>
+    have ha := hall a List.mem_cons_self
+    have hb := hall b (List.mem_cons_of_mem _ List.mem_cons_self)
+    have := (List.pairwise_cons.1 hs).1 b List.mem_cons_self
+    rw [ha, hb] at this
+    omega
+
+theorem rewriteLines_occ {pats : List CPat} {v : VInfo} {old new : List Str} {ms : List PMatch}
+    (hm : iterMatches old pats = some ms) (h : rewriteLines pats v old = .ok new)
+    (m : PMatch) (hmem : m ∈ ms) :
+    ∃ newLine, new[m.lineno]? = some newLine ∧
+      (newLine.drop (Int.toNat ((m.start : Int) +
+          ((ms.filter (fun m' => m'.lineno == m.lineno && decide (m'.stop < m.start))).map
+            (growth v)).sum))).take (replOfL v m).length = replOfL v m := by
+  obtain ⟨-, -, line, hl, -⟩ := (iterMatches_facts old pats ms hm).2 m hmem
+  obtain ⟨-, -, h3⟩ := rewriteLines_line hm h
+  refine ⟨spliceLine v (lineMatches ms m.lineno) line, by rw [h3, hl]; rfl, ?_⟩
+  have hocc := spliceLine_occ v (lineMatches ms m.lineno) line (lineMatches_sorted hm _)
+    (lineMatches_bounds hm _ line hl) m (mem_lineMatches.2 ⟨hmem, rfl⟩)
+  have hperm : ((lineMatches ms m.lineno).filter (fun m' => decide (m'.stop < m.start))).Perm
+      (ms.filter (fun m' => m'.lineno == m.lineno && decide (m'.stop < m.start))) := by
+    unfold lineMatches
+    rw [List.filter_filter]
+    have := (sortMatches_perm ms).filter
+      (fun m' => m'.lineno == m.lineno && decide (m'.stop < m.start))
+    refine List.Perm.trans (List.Perm.of_eq ?_) this
+    apply List.filter_congr
+    intro x _
+    exact Bool.and_comm _ _
+  rw [sum_map_perm (growth v) hperm] at hocc
+  exact hocc
+
+/-! ### `replaceAll` on the pattern itself -/
+
+theorem replaceAllF_nil (f : Nat) (pat rep : Str) : replaceAllF f pat rep [] = [] := by
+  cases f <;> rfl
+
+theorem replaceAll_self (p rep : Str) (h : p ≠ []) : replaceAll p rep p = rep := by
+  cases p with
+  | nil => exact absurd rfl h
+  | cons c cs =>
+    have hpre : (c :: cs).isPrefixOf (c :: cs) = true :=
+      List.isPrefixOf_iff_prefix.2 (List.prefix_refl _)
+    unfold replaceAll
+    show replaceAllF ((c :: cs).length + 1) (c :: cs) rep (c :: cs) = rep
+    rw [replaceAllF]
+    simp only [List.isEmpty_cons, Bool.false_eq_true, if_false, hpre, if_true, List.drop_length,
+      replaceAllF_nil, List.append_nil]
+
+/-! ### `plan` when the rewrite phase fails -/
+
+theorem plan_rewrite_fail' (c0 : PlanCfg) (a : PlanCli) (e : PlanEnv) (hr : e.rewriteOk = false)
+    (r : List Ev × Nat) (h : plan c0 a e = r) :
+    r.2 = 1 ∧ ∀ ev ∈ r.1, TagEv a.fetch ev ∨ ev = .cmd "status" := by
+  have fin : ∀ s : PState, EvExt (fun ev => TagEv a.fetch ev ∨ ev = .cmd "status") [] s.evs →
+      ∀ ev ∈ s.evs.reverse, TagEv a.fetch ev ∨ ev = .cmd "status" := by
+    intro s ⟨T, hT, hm⟩ ev hev
+    rw [hT] at hev
+    exact hm ev (by simpa using hev)
+  unfold plan at h
+  split at h
+  · subst h; simp
+  rename_i c hc
+  extract_lets s0 at h
+  split at h
+  rename_i s1 o1 h1
+  have e1 : EvExt (TagEv a.fetch) [] s1.evs := by
+    split at h1
+    · simp only [Prod.mk.injEq] at h1; rw [← h1.1]; exact .refl _
+    · have := getTags_ext e a.fetch c.scopeBranch s0
+      rw [h1] at this; exact this
+  clear h1
+  split at h
+  · subst h; exact ⟨rfl, fin _ (e1.mono fun _ => .inl)⟩
+  split at h
+  · subst h; exact ⟨rfl, fin _ (e1.mono fun _ => .inl)⟩
+  split at h
+  rename_i s2 o2 h2
+  have e2 : EvExt (TagEv a.fetch) [] s2.evs := by
+    split at h2
+    · have := (getTags_ext e false false s1).mono (Q := TagEv a.fetch) (fun _ => TagEv.of_false)
+      rw [h2] at this; exact e1.trans this
+    · simp only [Prod.mk.injEq] at h2; rw [← h2.1]; exact e1
+  clear h2 e1
+  split at h
+  · subst h; exact ⟨rfl, fin _ (e2.mono fun _ => .inl)⟩
+  split at h
+  · subst h; exact ⟨rfl, fin _ (e2.mono fun _ => .inl)⟩
+  split at h
+  · subst h; exact ⟨by simp [hr], fin _ (e2.mono fun _ => .inl)⟩
+  split at h
+  rename_i s3 usable h3
+  have e3 : EvExt (fun ev => TagEv a.fetch ev ∨ ev = .cmd "status") [] s3.evs := by
+    split at h3
+    · rcases isUsable_shape e s2 with ⟨hu, _⟩ | hu <;> rw [h3] at hu <;> simp only at hu <;> rw [hu]
+      · exact e2.mono fun _ => .inl
+      · exact .cons (.inl (.inl rfl)) (e2.mono fun _ => .inl)
+    · simp only [Prod.mk.injEq] at h3; rw [← h3.1]; exact e2.mono fun _ => .inl
+  clear h3 e2
+  split at h
+  rename_i s4 o4 h4
+  have e4 : EvExt (fun ev => TagEv a.fetch ev ∨ ev = .cmd "status") [] s4.evs := by
+    split at h4
+    · have := congrArg (fun r => r.1.evs) h4
+      simp only [vcsCall_evs] at this
+      rw [← this]
+      exact .cons (.inr rfl) e3
+    · simp only [Prod.mk.injEq] at h4; rw [← h4.1]; exact e3
+  clear h4 e3
+  split at h
+  · subst h; exact ⟨rfl, fin _ e4⟩
+  split at h
+  · subst h; exact ⟨rfl, fin _ e4⟩
+  split at h
+  · subst h; exact ⟨rfl, fin _ e4⟩
+  · rename_i hx
+    simp [hr] at hx
+
+theorem plan_rewrite_fail (c0 : PlanCfg) (a : PlanCli) (e : PlanEnv) (hr : e.rewriteOk = false) :
+    (plan c0 a e).2 = 1 ∧ ∀ ev ∈ (plan c0 a e).1, TagEv a.fetch ev ∨ ev = .cmd "status" :=
+  plan_rewrite_fail' c0 a e hr _ rfl
+
 end BV
